@@ -170,6 +170,8 @@ def run(ctx):
                      'get_updated_parsing_state) derive their result from their parsing_state '
                      'argument / the states fixed at construction; no state remembered from an '
                      'earlier call is returned', 8)
+    ctx.rule('R10i', 'legacy MacroStandardArgsParser(args_math_mode=[...]): None keeps the mode, True and '
+                     'False set math and text mode (False is not "unset")', 1)
     ctx.rule('R10h', 'per-argument and per-body deltas: the arguments parser applies each '
                      'argument\'s own delta to the state of the call; the environment body state is '
                      'the call state updated by the spec\'s body delta; EnterMathMode for '
@@ -313,6 +315,67 @@ def run(ctx):
                'ParsingStateDeltaWalkerEvent does not apply the handler\'s delta to the state it is '
                'given: returns %s' % (got_txt[:1]),
                construct='ParsingStateDeltaWalkerEvent.get_updated_parsing_state')
+
+    # R10b: the enter/leave deltas are applied through the walker event only
+    for cls in ('ParsingStateDeltaEnterMathMode', 'ParsingStateDeltaLeaveMathMode'):
+        own = dm.methods(cls).get('get_updated_parsing_state')
+        if own is None:
+            ctx.holds('R10b', dm, dm.cls(cls), '%s inherits get_updated_parsing_state from the walker-event delta' % cls,
+                      construct=cls + ': application', trivial=True)
+            continue
+        bad = None
+        for cs in symex.return_cases(own):
+            v = symex.resolve(cs.sub, cs.env)
+            if not (isinstance(v, ast.Call) and isinstance(v.func, ast.Attribute) and
+                    isinstance(v.func.value, ast.Call) and call_name(v.func.value) == 'super'):
+                bad = cs
+        ctx.decide('R10b', bad is None, dm, bad.node if bad else own,
+                   '%s applies the walker event on every path' % cls,
+                   '%s.get_updated_parsing_state returns %s on the path [%s] instead of the state derived by '
+                   'the walker event: a formula opened while the state is already in math mode (inside a '
+                   'group or an unknown macro\'s argument in math) keeps the OUTER delimiter, so its closing '
+                   'delimiter is not recognised / the recorded delimiters are wrong'
+                   % (cls, short(bad.sub) if bad else '', ' & '.join(bad.cond_src()) if bad else ''),
+                   construct=cls + ': application')
+
+    # R10i: legacy per-argument modes: None = keep, True = math, False = text
+    bm = repo.mod('pylatexenc.macrospec._pyltxenc2_argparsers._base')
+    gi = bm.functions.get('MacroStandardArgsParser.parse_args.<locals>.get_inner_parsing_state')
+    if gi is None:
+        cand = [f_ for q_, f_ in bm.functions.items() if q_.endswith('get_inner_parsing_state')]
+        gi = cand[0] if cand else None
+    if gi is None:
+        ctx.unknown('R10i', bm, None, 'get_inner_parsing_state not found', construct='legacy argument modes')
+    else:
+        why = None
+        n_keep = n_set = 0
+        for cs in symex.return_cases(gi):
+            v = cs.sub
+            if isinstance(v, ast.Name):        # state returned unchanged
+                n_keep += 1
+                for t_, pol in cs.conds:
+                    if not pol:
+                        continue
+                    for dj in (t_.values if isinstance(t_, ast.BoolOp) and isinstance(t_.op, ast.Or) else [t_]):
+                        tx = unparse(dj)
+                        if tx.endswith(' is None') or (isinstance(dj, ast.Compare) and isinstance(dj.ops[0], ast.Eq)
+                                                       and 'in_math_mode' in tx):
+                            continue
+                        if isinstance(dj, ast.UnaryOp) and isinstance(dj.op, ast.Not) or isinstance(dj, ast.Name):
+                            why = ('the state is returned unchanged when %s holds: an entry False (force text '
+                                   'mode) is treated like None (keep the mode), so the argument of a legacy '
+                                   'text-like macro stays in math mode' % tx)
+            elif isinstance(v, ast.Call) and call_name(v) == 'sub_context':
+                n_set += 1
+                im = kwarg(v, 'in_math_mode')
+                if im is None:
+                    why = 'a per-argument state does not set in_math_mode'
+            else:
+                why = 'returns %s' % short(v)
+        if why is None and not (n_keep and n_set):
+            why = 'keep / set cases not both present'
+        ctx.decide('R10i', why is None, bm, gi, 'None keeps the mode, True/False set it',
+                   'legacy args_math_mode: %s' % why, construct='get_inner_parsing_state')
 
     # R10c
     wt = tables.WalkerTable(repo)
